@@ -156,7 +156,7 @@ func init() {
 			defer os.RemoveAll(dir)
 			os.Setenv("GORACE", "halt_on_error=0 exitcode=0 suppress_equal_stacks=0 suppress_equal_addresses=0 log_path="+dir+"/race")
 		}
-		pl := []schedPlan{{"race-elect-submit", 1, 60}, {"race-snapshot", 1, 40}, {"race-membership", 1, 60}, {"race-stop", 1, 60}, {"race-install", 1, 40}, {"race-bootstrap", 1, 30}}
+		pl := []schedPlan{{"race-elect-submit", 1, 120}, {"race-snapshot", 1, 90}, {"race-membership", 1, 120}, {"race-stop", 1, 120}, {"race-install", 1, 90}, {"race-bootstrap", 1, 90}}
 		if tier == "thorough" {
 			pl = []schedPlan{{"race-elect-submit", 2, 600}, {"race-snapshot", 2, 400}, {"race-membership", 2, 600}, {"race-stop", 2, 600}, {"race-install", 2, 400}, {"race-bootstrap", 2, 300}}
 		}
